@@ -138,6 +138,7 @@ func C13(c *Ctx) {
 		c.R.Break("C13-R7: crew.SpecSource.Copy not found")
 	}
 	c13Decoders(c)
+	c13OneDecoder(c, "cmd/mdb", "Host", "GetSpec")
 	compile := c.fn("core", "Spec", "Compile")
 	parse := c.fn("core", "Spec", "ParsePatterns")
 	asCompile := c.fn("core", "ActionSource", "Compile")
@@ -859,6 +860,49 @@ func nameDisagreements(t types.Type) []string {
 	return out
 }
 
+// c13OneDecoder: another loader that takes both representations (cmd/mdb): no body goes through both decoders.
+func c13OneDecoder(c *Ctx, pkg, recv, name string) {
+	f := c.P.Func(pkg, recv, name)
+	if f == nil || f.Blocks == nil {
+		return // the tool is optional
+	}
+	var js, ys []ssa.Instruction
+	ssau.Instrs(f, func(in ssa.Instruction) {
+		ci, ok := in.(ssa.CallInstruction)
+		if !ok || len(ci.Common().Args) == 0 {
+			return
+		}
+		n := ssau.CalleeName(ci)
+		dst := ci.Common().Args[len(ci.Common().Args)-1]
+		if mi, isMI := dst.(*ssa.MakeInterface); isMI {
+			dst = mi.X
+		}
+		pt, isP := dst.Type().Underlying().(*types.Pointer)
+		if !isP || !ssau.TypeIs(pt.Elem(), prog.Abs("core"), "Spec") {
+			return
+		}
+		switch {
+		case n == "encoding/json.Unmarshal":
+			js = append(js, in)
+		case strings.Contains(n, "yaml") && strings.HasSuffix(n, ".Unmarshal"):
+			ys = append(ys, in)
+		}
+	})
+	if len(js) == 0 || len(ys) == 0 {
+		return
+	}
+	c.R.Fn(fname(f))
+	both := ""
+	for _, a := range js {
+		for _, b := range ys {
+			if flow.InstrDominates(a, b) || flow.InstrDominates(b, a) || flow.Reachable(a.Block(), b.Block(), nil) && a.Block() != b.Block() {
+				both = c.pos(b)
+			}
+		}
+	}
+	c.R.Check(both == "", "C13-R6", fname(f)+": one decoder per body", c.pos(js[0]), "the JSON and the YAML decode are on different paths", "a body decoded as JSON also goes through the YAML decoder ("+both+"): the YAML reading of the JSON text replaces the nodes (numbers such as 1e3 become strings, legal JSON escapes are rejected)")
+}
+
 // c13Decoders: sio.ResolveSpecSource is the loader that takes a specification in either representation (property
 // anchor "hosts load YAML or JSON and compile").  As long as the two decoders know some field of a specification
 // under different names, a JSON body has to go through encoding/json, and no body through both.
@@ -939,6 +983,43 @@ func c13Decoders(c *Ctx) {
 				both = c.pos(b.in)
 			}
 		}
+	}
+	// the byte that decides the representation is the first byte that is not white space (a JSON document may
+	// start with a newline)
+	nsniff := 0
+	for _, f := range fns {
+		ssau.Instrs(f, func(in ssa.Instruction) {
+			bo, ok := in.(*ssa.BinOp)
+			if !ok || (bo.Op != token.EQL && bo.Op != token.NEQ) {
+				return
+			}
+			k, isC := ssau.ConstInt(bo.Y)
+			if !isC || k != '{' {
+				return
+			}
+			ld, isLd := bo.X.(*ssa.UnOp)
+			if !isLd {
+				return
+			}
+			ia, isIA := ld.X.(*ssa.IndexAddr)
+			if !isIA {
+				return
+			}
+			nsniff++
+			trimmed := false
+			for _, d := range varOrigins(rs, ia.X) {
+				if cl, isCl := d.(*ssa.Call); isCl {
+					switch ssau.CalleeName(cl) {
+					case "bytes.TrimSpace", "bytes.TrimLeft", "bytes.TrimLeftFunc":
+						trimmed = true
+						continue
+					}
+				}
+				trimmed = false
+				break
+			}
+			c.R.Check(trimmed, "C13-R6", fmt.Sprintf("ResolveSpecSource: the representation is decided on the first byte that is not white space #%d", nsniff), c.pos(in), "the body that is sniffed comes from bytes.TrimSpace / TrimLeft", "a JSON document that starts with white space (a newline, an indent) is taken for YAML and loses the fields whose JSON names the YAML decoder does not know")
+		})
 	}
 	c.R.Check(both == "", "C13-R6", "ResolveSpecSource: one decoder per body", at, "the JSON and the YAML decode are on different paths", "a body decoded as JSON also goes through the YAML decoder ("+both+")")
 }
